@@ -5,8 +5,9 @@ import AldorVerif.Model.MiniAldor.Syntax
 namespace AldorVerif.MiniAldor
 
 /-- Run-time values.  `cell a` is what a *mutable variable* is bound to in an environment (the
-value lives in the store at address `a`, so closures share it); `ref a` is an array or record
-object in the store; `yk` is the pending loop body a `yield` hands its value to (generators
+value lives in the store at address `a`, so closures share it); `ref a` is an array, record or
+union object in the store (a union object is `[str tag, value]`: the tag is the branch *label*, so
+branches of one type are told apart; `u.tag := x` changes the shared object); `yk` is the pending loop body a `yield` hands its value to (generators
 are evaluated by inversion of control, see `Eval.lean`); `dom` is `%` inside a domain. -/
 inductive Val where
   | mi (v : BitVec 64)
@@ -41,7 +42,7 @@ inductive Rule where
   | listLit | listOp | listIndex
   | arrLit | arrNew | arrIndex | arrSet | arrLen
   | recLit | recField | recSet
-  | uniLit | uniCase | uniGet
+  | uniLit | uniCase | uniGet | uniSet
   | whileIter | forRangeIter | forInIter | forGenIter | brk | iter
   | genMake | yield
   | throw | catchNamed | catchAll | finallyRun | exnVal | uncaught | errorCall
@@ -55,7 +56,7 @@ def Rule.all : List Rule :=
    .intDiv, .intCmp, .pow, .conv, .boolOp, .strOp, .strCmp, .varRead, .assign, .decl, .iteTrue,
    .iteFalse, .seqExit, .call, .callOverloaded, .callRec, .retEarly, .cloMake, .cloApply,
    .cloMutate, .listLit, .listOp, .listIndex, .arrLit, .arrNew, .arrIndex, .arrSet, .arrLen,
-   .recLit, .recField, .recSet, .uniLit, .uniCase, .uniGet, .whileIter, .forRangeIter,
+   .recLit, .recField, .recSet, .uniLit, .uniCase, .uniGet, .uniSet, .whileIter, .forRangeIter,
    .forInIter, .forGenIter, .brk, .iter, .genMake, .yield, .throw, .catchNamed, .catchAll,
    .finallyRun, .exnVal, .uncaught, .errorCall, .domCall, .domOwn, .catDefault, .selfCall,
    .print, .printNewline, .constDef, .topStmt]
